@@ -63,7 +63,7 @@ def run_shard(ctx, n, mode, spec, d, comp, data, key):
 def run(ctx):
     rng = ctx.rng
     cases = []
-    pool_lines = [b"a", b"b", b"c", b"a\tx", b"a\ty", b"b\tx", b"", b"a b", b"k1", b"k2", b"k3", b"k4", b"k5", b"\xff\x00", b"z" * 9000]
+    pool_lines = [b"a", b"b", b"c", b"a\tx", b"a\ty", b"b\tx", b"", b"a b", b"a\tx\tc", b"a\ty\tc", b"a\tz\tc\td", b"a x c", b"a y c", b"k1", b"k2", b"k3", b"k4", b"k5", b"\xff\x00", b"z" * 9000]
     counts = list(range(1, 13)) + [100]
     for n in counts:
         for comp in ("none", "gzip", "bzip2"):
@@ -76,7 +76,7 @@ def run(ctx):
             data = b"".join(l + (b"\r\n" if rng.random() < crlf else b"\n") for l in lines)
             if lines and rng.random() < 0.35:
                 data = data[:-2] if data.endswith(b"\r\n") else data[:-1]
-            cases.append((n, rng.choice(["prefix", "names"]), rng.choice([None, None, "1", "2", "1-2"]), rng.choice(["\t", " "]), comp, data))
+            cases.append((n, rng.choice(["prefix", "names"]), rng.choice([None, None, "1", "2", "1-2", "1,3-", "-1,3-", "2-", "1,3"]), rng.choice(["\t", " "]), comp, data))
     # explicit empty-input and empty-shard cases for each compression
     for comp in ("none", "gzip", "bzip2"):
         cases.append((2, "names", None, "\t", comp, b""))
